@@ -893,6 +893,11 @@ def handleParse (id : String) (t : List String) : Option (List String × Nat × 
           res := merge res (propfail id "C01" s!"context-aware parsing: spec= inf={s.inf} neg={s.neg} m={s.m} q={s.q}")
         if flc.inexact != s.inexact || flc.subnormal != s.subnormal || flc.underflow != s.underflow || flc.overflow != s.overflow then
           res := merge res (propfail id "C02" s!"context-aware parsing: flags differ from the specification inexact={s.inexact} subnormal={s.subnormal} overflow={s.overflow}")
+      -- the sign of the parsed value is the written one, whatever the destination held before (C13 round trip,
+      -- C06 independence of the destination's previous contents)
+      if Apd.Spec.numericString l && pd.d.neg != (l.head? == some '-') then
+        res := merge res (propfail id "C13" "the parsed value does not carry the written sign")
+        res := merge res (propfail id "C06" "the sign of the parsed value is not the written one: it depends on the destination's previous contents")
       -- C07: the context-rounded result fits
       if (e == .none || e == .trap) && c.prec > 0 && !(fits c pd.d) then
         res := merge res (propfail id "C07" "parsed and rounded result does not fit the context")
